@@ -72,7 +72,10 @@ def cases(draw):
         case["ops"].insert(draw(st.integers(0, len(case["ops"]))), c2)
     for o in case["ops"]:
         if o["op"] == "pull":
-            o["dest"] = draw(st.sampled_from(["bytesio", "file"]))
+            # "badpath": a local path that cannot be opened for writing (its directory does not exist)
+            o["dest"] = draw(st.sampled_from(["bytesio", "file", "file", "badpath"]))
+        elif o["op"] == "push" and draw(st.sampled_from([False] * 7 + [True])):
+            o["src"] = {"kind": "missing"}          # a local source path that does not exist
     case["_plan"] = plan
     return case
 
